@@ -232,6 +232,42 @@ class bptk():
         if(not "lock" in state.keys()):
             state["lock"] = False
         self.session_state = state
+        self._replay_session()
+
+    def _replay_session(self):
+        """Rebuild the simulation state of a restored session.
+
+        The session state that is kept externally only contains the logs of a session, not the state of the simulation
+        models. The logged steps of SD scenarios are therefore run again, each with the settings it was run with, so that the
+        session continues exactly where it was: earlier settings stay in force and earlier steps keep their values.
+        """
+        state = self.session_state
+
+        if not state or not state.get("settings_log"):
+            return
+
+        scenario_managers = state["scenario_managers"]
+        scenarios = state["scenarios"]
+        equations = state["equations"]
+        session_settings = state.get("settings") or {}
+
+        for _, manager in self.scenario_manager_factory.scenario_managers.items():
+            if manager.name in scenario_managers and manager.type == "sd" and len(equations) > 0:
+                relevant_scenarios = [scenario for scenario in manager.scenarios.keys() if scenario in scenarios]
+
+                for scenario in relevant_scenarios:
+                    if manager.name in session_settings and scenario in session_settings[manager.name]:
+                        manager.scenarios[scenario].configure_settings(session_settings[manager.name][scenario])
+                    self.reset_scenario_cache(scenario_manager=manager.name, scenario=scenario)
+
+                for step, settings in state["settings_log"].items():
+                    SdRunner(self.scenario_manager_factory).run_scenario_step(
+                        step=float(step),
+                        scenarios=relevant_scenarios,
+                        equations=equations,
+                        scenario_manager=manager.name,
+                        settings=settings
+                    )
 
     def lock(self):
         if self.session_state is not None:
